@@ -1,3 +1,4 @@
+import ast
 """C18 -- nearest-neighbour analysis equals brute force, invariant under rigid motion"""
 from .common import *
 from . import C06 as _geom
@@ -61,6 +62,19 @@ def appended(it, fn_qual, listname):
     return out
 
 
+def returned_list_names(fn, n_expected):
+    """the accumulation lists by role: the k-th element of the function's result tuple is np.vstack/concatenate(<list k>)"""
+    rets = [r for r in ast.walk(fn) if isinstance(r, ast.Return) and isinstance(r.value, ast.Tuple) and len(r.value.elts) == n_expected]
+    if len(rets) != 1:
+        raise Unsupported(f"result tuple with {n_expected} stacked lists not found", fn)
+    names = []
+    for e in rets[0].value.elts:
+        if not (isinstance(e, ast.Call) and e.args and isinstance(e.args[0], ast.Name)):
+            raise Unsupported("result tuple element is not <stack>(<list>)", e)
+        names.append(e.args[0].id)
+    return names
+
+
 def o182(ctx):
     q = NN + "get_nn_distances"
     m, fn = ctx.prog.func(q)
@@ -104,12 +118,8 @@ def o182(ctx):
     Pa = [mk("add", sym("a:" + c), sym("a:shift_" + c)) for c in "xyz"]
     Pb = [mk("add", sym("b:" + c), sym("b:shift_" + c)) for c in "xyz"]
     off = [mk("mul", mk("sub", b_, a_), px) for a_, b_ in zip(Pa, Pb)]
-    cc = appended(it, q, "centered_coord")
-    rc = appended(it, q, "rotated_coord")
-    nd = appended(it, q, "nn_dist")
-    ad = appended(it, q, "angular_distances")
-    si = appended(it, q, "subtomo_idx")
-    sn_ = appended(it, q, "subtomo_idx_nn")
+    # result order is part of the interface: (offsets, particle-frame offsets, distances, angular distances, query ids, neighbour ids)
+    cc, rc, nd, ad, si, sn_ = [appended(it, q, nm) for nm in returned_list_names(fn, 6)]
     if not all(len(x) == 1 for x in (cc, rc, nd, ad, sn_)) or not si:
         raise Unsupported("result accumulation of get_nn_distances not recognised", fn)
     a_ = cc[0].args[1]
@@ -147,7 +157,7 @@ def o182(ctx):
     m2, fn2 = ctx.prog.func(q2)
     it2, r2 = run(ctx, "get_nn_rotations", {"nn_number": P("k"), "feature": P("feature")})
     space_rule(ctx, it2, "nnana.")
-    rr = appended(it2, q2, "nn_rotations")
+    rr = [e for e in it2.events if e.kind == "call" and e.name == "list.append" and e.fn == q2 and isinstance(e.args[1], Rot)]
     if len(rr) != 1 or not isinstance(rr[0].args[1], Rot):
         raise Unsupported("relative rotation accumulation not recognised", fn2)
     v = tm.rot_equivalent(no_sel(rr[0].args[1].term), T("matmul", T("transpose", particle_R("a:")), particle_R("b:")), samplers=SAM, seed_tag="rel")
@@ -178,10 +188,19 @@ def o182(ctx):
         raise Unsupported("assembly of the statistics table not recognised", fn3)
     order = [ast.unparse(e).split(".")[0] for e in hs[0].args[0].elts]
     names = ast.literal_eval(cols[0].value)
-    width = {"nn_dist": 1, "centered_coord": 3, "rotated_coord": 3, "ang_dst": 1, "coord_rot": 3, "angles": 3, "subtomo_idx": 1, "subtomo_idx_nn": 1}
-    want_names = {"nn_dist": ["distance"], "centered_coord": ["coord_x", "coord_y", "coord_z"], "rotated_coord": ["coord_rx", "coord_ry", "coord_rz"],
-                  "ang_dst": ["angular_distance"], "coord_rot": ["rot_x", "rot_y", "rot_z"], "angles": ["phi", "theta", "psi"],
-                  "subtomo_idx": ["subtomo_idx"], "subtomo_idx_nn": ["subtomo_nn_idx"]}
+    # roles by position in the producers' result tuples (not by local variable name)
+    roles = {"get_nn_distances": [["coord_x", "coord_y", "coord_z"], ["coord_rx", "coord_ry", "coord_rz"], ["distance"], ["angular_distance"],
+                                  ["subtomo_idx"], ["subtomo_nn_idx"]],
+             "get_nn_rotations": [["rot_x", "rot_y", "rot_z"], ["phi", "theta", "psi"]]}
+    want_names = {}
+    for a in ast.walk(fn3):
+        if isinstance(a, ast.Assign) and isinstance(a.targets[0], ast.Tuple) and isinstance(a.value, ast.Call):
+            callee = (ctx.prog.resolve(m3, a.value.func) or "").split(".")[-1]
+            if callee in roles and len(a.targets[0].elts) == len(roles[callee]) and all(isinstance(t, ast.Name) for t in a.targets[0].elts):
+                for t, r_ in zip(a.targets[0].elts, roles[callee]):
+                    want_names[t.id] = r_
+    if len(want_names) != 8:
+        raise Unsupported("unpacking of get_nn_distances / get_nn_rotations results in get_nn_stats not recognised", fn3)
     flat = []
     for o in order:
         flat += want_names.get(o, [f"?{o}"])
